@@ -71,6 +71,14 @@ func (e *Embed) GenerateOutput(textOnly bool) string {
 		// Non-rendered descendants (script, style, hidden elements) must not
 		// be carried into the output along with the embed.
 		for _, child := range dom.GetElementsByTagName(e.Element, "*") {
+			switch dom.TagName(child) {
+			case "iframe", "object", "embed", "applet":
+				// Frames and plugins nested inside the embed are third-party
+				// content of their own, and none of them was recognised.
+				dom.DetachChild(child)
+				continue
+			}
+
 			if !domutil.IsProbablyVisible(child) {
 				dom.DetachChild(child)
 			}
